@@ -69,7 +69,9 @@ MUTANTS: List[Tuple[str, str, str, str, List[str]]] = [
      "        self.dag._run_setup(deepcopy(self.graph))", ["C11", "C15"]),
     ("pre-setup-crossed-resolution", D, "            root_nodes = self.get_multiple_nodes_aliases(root_nodes)",
      "            root_nodes = self.get_multiple_nodes_aliases(exclude_nodes)", ["C11", "C12"]),
-    ("splice-kwargs-of-stale-loop-variable", D, "for id_, uxn in exec_node.kwargs.items()", "for id_, uxn in xn.kwargs.items()", ["C20"]),
+    ("splice-kwargs-of-stale-loop-variable", D, "for name, uxn in exec_node.kwargs.items()", "for name, uxn in xn.kwargs.items()", ["C20"]),
+    ("splice-kwarg-names-prefixed-again", D, "                    name: UsageExecNode(to_subdag_id(uxn.id), uxn.key)", "                    to_subdag_id(name): UsageExecNode(to_subdag_id(uxn.id), uxn.key)", ["C02", "C20"]),
+    ("execute-kwarg-names-cut-at-dot", N, "            key: uxn.result(results)", "            key.split(\".\")[-1]: uxn.result(results)", ["C02", "C01"]),
     ("splice-type-of-stale-loop-variable", D, "node.exec_nodes[new_id] = type(exec_node)(**values)", "node.exec_nodes[new_id] = type(xn)(**values)", ["C20"]),
     ("compose-rewire-to-old-id", D, "xn.kwargs[xn_dep_name] = UsageExecNode(new_id, xn_dep.key)", "xn.kwargs[xn_dep_name] = UsageExecNode(old_id, xn_dep.key)", ["C19"]),
     ("cache-dump-unfiltered", D, "pickle.dump(to_cache_results, f,", "pickle.dump(results, f,", ["C18"]),
@@ -130,9 +132,11 @@ async def""", """        logger.debug("Remove ExecNode {} from the graph", futur
 
 
 async def""", ["C09", "C02"]),
-    ("deact-no-removal", H, """            results[xn.id] = None
+    ("deact-no-removal", H, """            # a node that didn't run has no result: it, and every indexed / unpacked part of it, reads as None
             runnable_xns_ids |= graph.remove_root_node(xn.id)
-""", "            results[xn.id] = None\n", ["C09", "C10"]),
+""", "            pass\n", ["C09", "C10"]),
+    ("deact-stores-none-again", H, """            # a node that didn't run has no result: it, and every indexed / unpacked part of it, reads as None
+""", "            results[xn.id] = None\n", ["C10", "C14", "C02"]),
     ("cycle-test-removed", G, """            cycle = find_cycle(graph)
             raise NetworkXUnfeasible(f"the DAG contains at least a circular dependency: {cycle}")""", "            cycle = find_cycle(graph)", ["C09"]),
     # ---- readiness / exactly once (C02 / C03)
@@ -229,18 +233,23 @@ async def""", ["C14", "C02"]),
     ("compose-no-deepcopy", D, "(in_id, _copy_xn(self.exec_nodes[in_id])) for in_id in set_xn_ids", "(in_id, self.exec_nodes[in_id]) for in_id in set_xn_ids", ["C19"]),
     ("compose-shallow-copy", D, "            xn_copy = deepcopy(xn)\n", "            xn_copy = copy(xn)\n", ["C19"]),
     ("compose-callable-cloned-again", D, """            object.__setattr__(xn_copy, "exec_function", xn.exec_function)\n""", "", ["C19"]),
-    ("result-key-path-on-deactivated-none", U, """            if xn_result is None and self.key:
+    ("result-none-read-as-did-not-run", U, """            return reduce(lambda obj, key: obj.__getitem__(key), self.key, results[self.id])""", """            xn_result = results[self.id]
+            if xn_result is None and self.key:
                 return None
-""", "", ["C10", "C14"]),
+            return reduce(lambda obj, key: obj.__getitem__(key), self.key, xn_result)""", ["C02", "C10"]),
+    ("result-absent-id-folded", U, """        if self.id in results:
+            return reduce(lambda obj, key: obj.__getitem__(key), self.key, results[self.id])
+        return None""", """        return reduce(lambda obj, key: obj.__getitem__(key), self.key, results.get(self.id))""", ["C10", "C14"]),
     ("xn-on-node-not-unwrapped", "tawazi/_decorators.py", """        if isinstance(_func, LazyExecNode):
             _func = _func.exec_function
 """, "", ["C01", "C03"]),
     ("compose-drop-active-rewire", D, """                if xn.active is not None and xn.active.id == old_id:
                     object.__setattr__(xn, "active", UsageExecNode(new_id, xn.active.key))
 """, "", ["C19"]),
-    ("compose-missing-input-test-removed", D, """                    if pred in dag_inputs_ids:
-                        _raise_missing_input(pred)
+    ("compose-missing-input-test-removed", D, """                        if pred in dag_inputs_ids:
+                            _raise_missing_input(pred)
 """, "", ["C19"]),
+    ("compose-walk-recursive-again", D, """                        pending.append(pred)""", """                        _add_missing_deps(pred, xn_ids)""", ["C19"]),
     # ---- setup / selection / debug (C11 / C12 / C13)
     ("writeback-drop-setup-guard", D, """            if xn.setup and not xn.executed(self.results):
                 logger.debug("Setting result of setup ExecNode {} to {}", node_id, result)""", """            if not xn.executed(self.results):
@@ -418,16 +427,10 @@ BENIGN: List[Tuple[str, str, List[Tuple[str, str]]]] = [
 
         return deps""", """        return [*self.args, *self.kwargs.values(), *([self.active] if self.active is not None else [])]""")]),
     ("accessor-not-in", U, [("""        if self.id in results:
-            xn_result = results[self.id]
-            # an ExecNode that didn't run (deactivated) yields None: so does every indexed / unpacked part of it
-            if xn_result is None and self.key:
-                return None
-            return reduce(lambda obj, key: obj.__getitem__(key), self.key, xn_result)
+            return reduce(lambda obj, key: obj.__getitem__(key), self.key, results[self.id])
         return None""", """        if self.id not in results:
             return None
         xn_result = results[self.id]
-        if xn_result is None and self.key:
-            return None
         return reduce(lambda obj, key: obj.__getitem__(key), self.key, xn_result)""")]),
     ("gate-arms-swapped", G, [("""        if cfg.RUN_DEBUG_NODES:
             nodes_to_include = original_graph.include_debug_nodes(self.leaf_nodes) + list(
